@@ -20,6 +20,9 @@ pin_project! {
 
 impl Inflate {
     pub(super) fn new(buf: Bytes) -> Self {
+        #[cfg(noodles_verif)]
+        use crate::verif::tokio;
+
         Self {
             handle: tokio::task::spawn_blocking(move || inflate(buf)),
         }
